@@ -59,6 +59,6 @@ open(os.path.join(root, 'DESIGN.md'), 'w').write(s)
 n2 = sum(r2first.values())
 s2 = open(os.path.join(root, 'DESIGN.md')).read()
 s2 = re.sub(r'<!-- round2first -->[^.]*?(?=\. That number)', '<!-- round2first -->%d of %d at the quick tier (seed 1), %d more at the thorough tier only, %d not at all' % (r2first['quick'], n2, r2first['thorough'], r2first['no']), s2)
-s2 = re.sub(r'<!-- round2now -->[^\n]*', '<!-- round2now -->On the final tree: %d of %d at the quick tier, %d more at the thorough tier, %d not detected (each of those is discussed in §11.6).' % (r2now['quick'], n2, r2now['thorough'], r2now['no']), s2)
+s2 = re.sub(r'<!-- round2now -->[^\n]*', '<!-- round2now -->On the final tree: %d of %d at the quick tier, %d more at the thorough tier, %d not detected (each of those is discussed in §11.5).' % (r2now['quick'], n2, r2now['thorough'], r2now['no']), s2)
 open(os.path.join(root, 'DESIGN.md'), 'w').write(s2)
 print(len(d['fixed']), 'fixed;', len(d['findings']), 'listed;', counts, 'round2 first', r2first, 'now', r2now)
